@@ -111,13 +111,15 @@ def script(rng, c, style, cfg):
                                          "sack" if rng.random() < 0.5 else ""] if x)
     sent = {"c": 0, "s": 0}
     if style in ("full", "flood", "synonly", "nosynack"):
-        c.pk("c", SYN, -1, None, opts())
+        # TCP Fast Open: the SYN (and the SYN+ACK) may carry the first bytes of the stream
+        tfo = lambda d: c.data[d][:rng.randint(1, 8)] if rng.random() < 0.2 and c.data[d] else None
+        c.pk("c", SYN, -1, tfo("c"), opts())
         if rng.random() < 0.1:
             c.pk("c", SYN, -1, None, opts())                 # SYN retransmission
         if style == "synonly":
             return
         if style != "nosynack":
-            c.pk("s", SYN | ACK, -1, None, opts(), ackoff=0)
+            c.pk("s", SYN | ACK, -1, tfo("s"), opts(), ackoff=0)
         c.pk("c", ACK, 0, None, ackoff=0)
     reorder = rng.choice([0, 0, 1, 1, 2])
     segs = {"c": cut_segments(rng, LC, 6, reorder), "s": cut_segments(rng, LS, 6, reorder)}
